@@ -55,7 +55,7 @@ impl Prop for P {
         }
     }
     fn cases(tier: Tier) -> u64 {
-        tier.pick(100_000, 1_000_000)
+        tier.pick(400_000, 4_000_000)
     }
     fn fixed_cases(_tier: Tier) -> Vec<Case> {
         (0..=255u8).map(|cmf| Case::Headers { cmf }).collect()
